@@ -186,7 +186,7 @@ def build_panel_transformer(spec):
     if k == "riseg":
         from sktime.transformations.panel.segment import RandomIntervalSegmenter
 
-        return RandomIntervalSegmenter(n_intervals=spec.get("n_intervals", 3), random_state=rs)
+        return RandomIntervalSegmenter(n_intervals=spec.get("n_intervals", 3), min_length=spec.get("min_length"), random_state=rs)
     if k == "swseg":
         from sktime.transformations.panel.segment import SlidingWindowSegmenter
 
@@ -194,7 +194,8 @@ def build_panel_transformer(spec):
     if k == "rife":
         from sktime.transformations.panel.summarize import RandomIntervalFeatureExtractor
 
-        return RandomIntervalFeatureExtractor(n_intervals=spec.get("n_intervals", 3), random_state=rs)
+        return RandomIntervalFeatureExtractor(n_intervals=spec.get("n_intervals", 3), min_length=spec.get("min_length"), random_state=rs,
+                                              features=[np.mean, np.std, np.max] if spec.get("more_features") else None)
     if k == "dslope":
         from sktime.transformations.panel.summarize import DerivativeSlopeTransformer
 
